@@ -12122,7 +12122,11 @@ class Procedure_Declaration_Stmt(StmtBase):  # R1211
         proc_attr_spec_list = None
         if i != -1:
             tmp = line[:i].rstrip()
-            if tmp and tmp[0] == ",":
+            if tmp:
+                if tmp[0] != ",":
+                    # Only an attribute list may stand between the
+                    # interface and '::'
+                    return
                 proc_attr_spec_list = Proc_Attr_Spec_List(repmap(tmp[1:].lstrip()))
             line = line[i + 2 :].lstrip()
         return proc_interface, proc_attr_spec_list, Proc_Decl_List(repmap(line))
